@@ -22,8 +22,9 @@ from btcsim.core.choices import Choices, ReplayDrift, derive_seed
 from btcsim.core.ctx import Ctx, HarnessTimeout, RunAborted, ViolationFound
 
 VERIF_DIR = os.path.dirname(os.path.dirname(os.path.dirname(os.path.abspath(__file__))))
-REPLAY_DIR = os.path.join(VERIF_DIR, "replays")
-EVIDENCE_DIR = os.path.join(VERIF_DIR, "evidence")
+# overridable only for the sensitivity self-test, which must not touch the real evidence
+REPLAY_DIR = os.environ.get("BTCSIM_REPLAY_DIR") or os.path.join(VERIF_DIR, "replays")
+EVIDENCE_DIR = os.environ.get("BTCSIM_EVIDENCE_DIR") or os.path.join(VERIF_DIR, "evidence")
 RUN_WALL_S = 120  # per-run wall watchdog: a trip is a harness error
 
 
